@@ -82,3 +82,22 @@ Definition expressible (path : string) : bool :=
   | Some (ik, _) => match lookup ik parse_table with Some (_, _, []) => true | _ => false end
   | None => false
   end.
+
+(* ---- several loads in one process.  Dosini.parse_component keeps nothing between two calls: what a load returns is a
+   function of the section alone, whatever was loaded before (a component of the simulator backend, of kubernetes ...).
+   A sequence of loads is modelled as the list of the independent results; the correspondence compares every load of a
+   sequence (stream P: a component of each backend first, then probe components) with [parse_c]/[roundtrip_c] on tables that
+   were measured BEFORE anything was loaded, and measures the tables again afterwards. *)
+Definition load_seq (l : list ini) : list (option comp) := map parse_c l.
+
+(* the options Dosini.options_for_backend lists for a backend (Generated.backend_options, enumerated on the code under
+   test): a name that is a key of the format must have a reader row and be written under that very key; any other name is a
+   plain variable of the component *)
+Definition backend_name_ok (n : string) : bool :=
+  if mem n known_keys then
+    match lookup n parse_table with
+    | Some (path, _, _) => match lookup path dump_table with Some (ik, _) => String.eqb ik n | None => false end
+    | None => false
+    end
+  else true.
+Definition backends_ok : bool := forallb (fun b : string * list string => forallb backend_name_ok (snd b)) backend_options.
